@@ -147,12 +147,14 @@ PLAN = {
              "with snapshots; non-trivial = the call agreed with the model and no input changed; distinct = distinct request",
     ),
     "C10": dict(
-        streams=[("conc", 3000, 30000), ("hist", 3000, 30000)],
+        streams=[("conc", 3000, 30000), ("hist", 3000, 30000), ("cold", 150, 1500)],
         theorems=[],
         facts=[F + "packageVars_eq", F + "codecVars_eq", F + "scanReset_eq", F + "newScanner_eq", F + "newEncodeState_eq",
                F + "packageVarWrites_eq", F + "decodePool_eq", F + "inputWrites_eq"],
         rule="4-8 goroutines run random call lists over shared Patch values and shared input slices under the race detector; every result "
-             "is judged against the sequential model; non-trivial = agreed with the model, no race report; distinct = distinct request",
+             "is judged against the sequential model; stream cold: every trial is a FRESH process whose first calls (DecodePatch + ApplyWithOptions with a copy) are made by 16 "
+             "goroutines released together, so that whatever the library fills lazily per type or per process is filled under contention; "
+             "non-trivial = agreed with the model, no race report; distinct = distinct request",
     ),
     "C11": dict(
         streams=[("corpus", 0, 0), ("decode", 12000, 150000), ("entry", 2000, 20000)],
